@@ -7,12 +7,17 @@ import (
 	"os"
 	"sync"
 	"testing"
+	"time"
 
 	"github.com/whawty/auth/internal/verifev"
 )
 
 func TestRace(t *testing.T) {
-	ev := verifev.New("C05", "race")
+	prop := os.Getenv("VERIF_RACE_PROP")
+	if prop == "" {
+		prop = "C05"
+	}
+	ev := verifev.New(prop, "race")
 	path := scratchFile(fmt.Sprintf("race-%d.sock", os.Getpid()))
 	os.Remove(path)
 	s, err := NewServer(path, func(l, p, sv, r string) (bool, string, error) { return l == p, "hello " + l, nil })
@@ -43,7 +48,17 @@ func TestRace(t *testing.T) {
 				}
 			}(c)
 		}
-		wg.Wait()
+		done := make(chan struct{})
+		go func() { wg.Wait(); close(done) }()
+		select {
+		case <-done:
+		case <-time.After(5 * time.Minute):
+			// not a timing oracle: six local requests that are still unanswered after minutes are hung
+			ev.Violation("concurrent-client-never-answered", fmt.Sprintf("round %d: not all of 6 concurrent clients were answered within 5 minutes", k), nil)
+			ev.NotExhaustive("stopped after a hung round")
+			ev.Finish()
+			os.Exit(0)
+		}
 		ev.Add("evaluations", 6)
 	}
 	ev.Distinct("rounds")
